@@ -58,7 +58,7 @@ func TestSelf(t *testing.T) {
 	expect("past end", probe(Read{Off: 20, Len: 3}, result{n: 0, err: io.EOF}, none, none, nil))
 	expect("zero length at end", probe(Read{Off: 16, Len: 0}, result{n: 0}, none, none, nil))
 	expect("zeros after error", probe(Read{Off: 0, Len: 3}, result{n: 3, got: zeros[:3]}, map[desync.ChunkID]int{id0: 1}, map[desync.ChunkID]int{id0: 1}, nil), "C10:read:stale-zeros-after-error")
-	expect("zeros concurrent", probe(Read{Off: 0, Len: 3}, result{n: 3, got: zeros[:3]}, none, map[desync.ChunkID]int{id0: 1}, nil), "C10:read:zeros-concurrent-fetch-failed")
+	expect("zeros concurrent", probe(Read{Off: 0, Len: 3}, result{n: 3, got: zeros[:3]}, none, map[desync.ChunkID]int{id0: 1}, nil), "C10:read:zeros-fetch-failed-during-read")
 	expect("zeros no error", probe(Read{Off: 12, Len: 4}, result{n: 4, got: zeros[:4]}, map[desync.ChunkID]int{id0: 1}, map[desync.ChunkID]int{id0: 1}, nil), "C10:read:zeros-unpopulated")
 	expect("stale bit", probe(Read{Off: 12, Len: 4}, result{n: 4, got: zeros[:4]}, none, none, map[int]bool{4: true}), "C10:restart:state-bit-without-data")
 	flipped := append([]byte(nil), blob...)
@@ -69,14 +69,14 @@ func TestSelf(t *testing.T) {
 	expect("panic at end", probe(Read{Off: 16, Len: 0}, result{panicked: "boom"}, none, none, nil), "C10:read:panic-zero-length-at-end")
 	expect("panic elsewhere", probe(Read{Off: 3, Len: 1}, result{panicked: "boom"}, none, none, nil), "C10:read:panic")
 
-	// state-file format: one bit per chunk, LSB first, ceil(chunks/8) bytes; a full healthy
-	// history through the real code must be silent
+	// state-file format: one bit per chunk, LSB first, ceil(chunks/8) bytes (reads in the middle
+	// of chunks 0 and 4; what the reads return is judged by TestEnum/TestProp, not here)
 	var o hx.Outcome
 	w := newWorld(c, &o)
 	defer w.cleanup()
 	w.restart(Op{Kind: "restart", State: "deleted", Cache: "deleted"})
-	w.read("self", Read{Off: 0, Len: 1})
-	w.read("self", Read{Off: 12, Len: 2})
+	w.read("self", Read{Off: 1, Len: 1})
+	w.read("self", Read{Off: 13, Len: 2})
 	w.saveState(Op{})
 	b, err := os.ReadFile(w.state)
 	if err != nil || !bytes.Equal(b, []byte{0x11}) {
@@ -86,9 +86,5 @@ func TestSelf(t *testing.T) {
 	if !w.withState || len(w.staleBits) != 0 {
 		bad("restart with own state not recognised: withState=%v stale=%v", w.withState, w.staleBits)
 	}
-	w.read("self", Read{Off: 0, Len: 16})
 	w.teardown()
-	if len(o.Violations) != 0 {
-		bad("healthy history produced violations: %v", o.Violations)
-	}
 }
